@@ -575,7 +575,7 @@ Theorem checked_assign_admissible decl loc t T2 v :
   admissible_step powf decl (CAssign loc v).
 Proof.
   intros Hd C Hv. exists t. split; [exact Hd|].
-  apply (assign_sound (TMut t) t T2 v eq_refl C Hv).
+  apply (assign_sound (TMut t) t T2 v eq_refl eq_refl C Hv).
 Qed.
 
 Theorem checked_opassign_admissible decl loc aop bop t T2 v :
@@ -585,7 +585,7 @@ Theorem checked_opassign_admissible decl loc aop bop t T2 v :
   admissible_step powf decl (COpAssign loc bop v).
 Proof.
   intros Hb Wt W2 Hd C Hv. exists t. split; [exact Hd|]. intros cur r Hc E.
-  destruct (compound_assign_sound powf aop bop (TMut t) t T2 v cur Hb Wt W2 eq_refl C Hv Hc)
+  destruct (compound_assign_sound powf aop bop (TMut t) t T2 v cur Hb Wt W2 eq_refl eq_refl C Hv Hc)
     as [_ [_ [H _]]].
   apply H. exact E.
 Qed.
@@ -604,7 +604,7 @@ Proof.
   pose proof (checked_opassign_admissible decl loc aop bop t T2 v Hb Wt W2 Hd C Hv) as Ha.
   destruct (typed_opassign_no_missing powf decl st loc bop v Ht Ha) as [t' [cur [Hd' [Hn [Hc ->]]]]].
   rewrite Hd in Hd'. injection Hd' as <-.
-  destruct (compound_assign_sound powf aop bop (TMut t) t T2 v cur Hb Wt W2 eq_refl C Hv Hc)
+  destruct (compound_assign_sound powf aop bop (TMut t) t T2 v cur Hb Wt W2 eq_refl eq_refl C Hv Hc)
     as [P [_ [_ Er]]].
   split; [exact P|exact Er].
 Qed.
